@@ -1663,6 +1663,11 @@ class FlowProposal(RejectionProposal):
         if weights_file is not None:
             if os.path.exists(weights_file):
                 self.flow.reload_weights(weights_file)
+            elif os.path.exists(weights_file + ".old"):
+                # Saving the weights was interrupted after the previous file
+                # was moved but before the new file was in place
+                logger.warning("Weights file is missing, using previous file")
+                self.flow.reload_weights(weights_file + ".old")
         else:
             logger.warning("Could not reload weights for flow")
 
